@@ -3879,10 +3879,13 @@ type enterFuncBody struct {
 	funcType    funcType
 	extensible  bool
 	adjustStack bool
+	// the body scope uses dynamic lookup (direct eval, also strict): the compiler counts such a scope
+	// as a stash level even when it has no bindings, so a stash must exist at run time
+	dynLookup bool
 }
 
 func (e *enterFuncBody) exec(vm *vm) {
-	if e.stashSize > 0 || e.extensible {
+	if e.stashSize > 0 || e.extensible || e.dynLookup {
 		vm.newStash()
 		stash := vm.stash
 		stash.funcType = e.funcType
